@@ -494,7 +494,8 @@ fn build3(case: &Case) -> Option<Curve3> {
 pub fn judge(case: &Case, l: &mut Local) {
     let mk = || serde_json::to_value(case).unwrap();
     let transformed = case.derived == "transformed";
-    let ext = case.scale * 3.0 + if transformed { 10.0 } else { 0.0 };
+    let span = case.verts.iter().flat_map(|v| v.iter()).map(|c| c.abs() as f64).fold(3.0, f64::max);
+    let ext = case.scale * span + if transformed { 10.0 } else { 0.0 };
     if case.dim == 2 {
         match build2(case) {
             Some(c) => {
@@ -584,12 +585,24 @@ pub fn cases(tier: Tier) -> Vec<Case> {
             }
         }
     }
+    // edges of wildly different length (1e6 next to 1e-2), in both orders: whatever is derived from the
+    // cumulative-length table inherits the rounding of the long part
+    let long = 100_000_000;
+    for verts in [
+        vec![vec![0, 0, 0], vec![long, 0, 0], vec![long, 1, 0], vec![long, 1, 500]],
+        vec![vec![long, 1, 500], vec![long, 1, 0], vec![long, 0, 0], vec![0, 0, 0]],
+        vec![vec![0, 0, 0], vec![0, 1, 0], vec![long, 1, 0], vec![long, 2, 0], vec![long, 2, 3]],
+    ] {
+        out.push(Case { dim: 3, verts: verts.clone(), force_closed: false, scale: 1e-2, tol: 1e-9, derived: "root".into() });
+        let flat: Vec<Vec<i32>> = verts.iter().map(|v| vec![v[0], v[1] + v[2]]).collect();
+        out.push(Case { dim: 2, verts: flat, force_closed: false, scale: 1e-2, tol: 1e-9, derived: "root".into() });
+    }
     out
 }
 
 pub fn run(tier: Tier) -> i32 {
     let mut cx = Ctx::new("C01", tier, "exploration");
-    cx.rule = "every vertex sequence (no equal consecutive points) over the 3x3 (2D) / 3x3x3 (3D) integer lattice up to the length bound x {open, force-closed} x scale x tolerance (0, 1e-9, one and one-and-a-half lattice steps), and curves one operation away from those roots; per curve every critical length (0, L, stored vertex lengths, edge mid-points, each +-1 ulp, +-tol/2, +-2tol, and out-of-range values). distinct = distinct de-duplicated vertex lists with >= 2 edges".into();
+    cx.rule = "every vertex sequence (no equal consecutive points) over the 3x3 (2D) / 3x3x3 (3D) integer lattice up to the length bound x {open, force-closed} x scale x tolerance (0, 1e-9, one and one-and-a-half lattice steps), and curves one operation away from those roots, plus curves whose neighbouring edges differ in length by eight orders of magnitude; per curve every critical length (0, L, stored vertex lengths, edge mid-points, each +-1 ulp, +-tol/2, +-2tol, and out-of-range values). distinct = distinct de-duplicated vertex lists with >= 2 edges".into();
     cx.bounds = json!({"seq_len_2d": tier.pick(4, 5), "seq_len_3d": tier.pick(3, 4), "lattice": 3, "scales": [1.0, 0.1, 1e-3, 1e3], "tols": ["1e-9", "1.0*scale", "1.5*scale"]});
     cx.require(&["vertex-hit", "ulp-neighbour", "mid-edge", "tol-neighbour", "out-of-range query", "seam station", "interior-vertex station", "end station", "de-duplicated input", "naturally closed input", "closing gap exactly equal to the tolerance", "derived curve"]);
     cx.assume("tolerances: points 1e-9*extent, lengths 16 ulp of L; direction at exactly reversing vertices (undefined by the statement) counted as gray");
